@@ -161,27 +161,41 @@ class CellWrapper:
             actual_width += length
             last_adapted_col = col
 
+        # Width that is left for the columns that still have to be fitted
+        remaining_width = available_width
+        remaining_columns = len(
+            [length for length in long_column_lengths if length is not None]
+        )
+
         # Fit columns into available width
         for col, length in enumerate(long_column_lengths):
             if length is None:
                 continue
 
-            # Keep ratios of column lengths and distribute them among the
-            # available width
-            self._column_lengths[col] = int(
-                round((length / actual_width) * available_width)
-            )
+            remaining_columns -= 1
 
             if col == last_adapted_col:
-                # Fix rounding errors
-                self._column_lengths[col] += self._max_total_width - sum(
-                    self._column_lengths
+                # The last column takes what is left (this also absorbs
+                # rounding errors)
+                self._column_lengths[col] = remaining_width
+            else:
+                # Keep ratios of column lengths and distribute them among the
+                # available width, leaving at least one character for each of
+                # the columns that follow
+                self._column_lengths[col] = max(
+                    1,
+                    min(
+                        int(round((length / actual_width) * available_width)),
+                        remaining_width - remaining_columns,
+                    ),
                 )
 
             self._wrap_column(col, self._column_lengths[col], formatter)
 
             # Recalculate the column length based on the actual wrapped length
             self._refresh_column_length(col)
+
+            remaining_width -= self._column_lengths[col]
 
             # Recalculate the actual width based on the changed length.
             actual_width = actual_width - length + self._column_lengths[col]
